@@ -40,6 +40,7 @@ def handleWith (lexed : Bool) (args : List Json) : Json :=
       Json.mkObj [("tokens", names toks),
                   ("parse", Json.bool (strictParses tbl toks)),
                   ("restricted", Json.bool (parses tbl Opts.restricted toks)),
+                  ("noskip", Json.bool (parses tbl ⟨true, true, false⟩ toks)),
                   ("audit", auditJson tbl toks)]
     | _, _ => jerr "bad-args"
   | _ => jerr "bad-args"
